@@ -94,8 +94,21 @@ class Table:
                 return frozenset(val)
             if isinstance(val, (list, tuple)):
                 return tuple(val)
+            if isinstance(val, dict) and len(val) <= 64:
+                return val          # a small module-level lookup table (e.g. keyed by (angle, flag)); the big parameter table stays symbolic
             raise Unknown("table %s is not a sequence" % t[1])
         raise Unknown(repr(t)[:80])
+
+    def _small_table(self, t):
+        """does t read a small module-level dict (directly or through .get)?"""
+        if isinstance(t, tuple) and t:
+            if t[0] == "free":
+                try:
+                    return isinstance(self.const_of(t), dict)
+                except Unknown:
+                    return False
+            return any(self._small_table(x) for x in t if isinstance(x, tuple))
+        return False
 
     def is_closed(self, t):
         try:
@@ -225,7 +238,7 @@ class Table:
                     raise Unknown("dict entry")
                 out[self.ev(kv[0], env)] = self.ev(kv[1], env)
             return out
-        if op == "sub[]" and len(t) == 3 and isinstance(t[1], tuple) and t[1] and (t[1][0] in ("dict", "list") or _mentions_table_literal(t[1])):
+        if op == "sub[]" and len(t) == 3 and isinstance(t[1], tuple) and t[1] and (t[1][0] in ("dict", "list") or _mentions_table_literal(t[1]) or self._small_table(t[1])):
             base = self.ev(t[1], env)
             key = self.ev(t[2], env)
             try:
@@ -866,7 +879,7 @@ def canon_expr(tab, t, env):
         return t[1]
     if op == "sub[]":
         # a lookup in a literal table (dict / list of constants, possibly through .get) is folded when its key is decided by the environment
-        if _mentions_table_literal(t[1]):
+        if _mentions_table_literal(t[1]) or tab._small_table(t[1]):
             try:
                 v = tab.ev(t, env)
                 if isinstance(v, (int, float)) and not isinstance(v, bool):
